@@ -910,6 +910,10 @@ def _cli_input(case):
     if case['unknown']:
         out.append('HETATM  900  C1  XYZ B 900      90.000  90.000  90.000  1.00  0.00           C  ')
         out.append('HETATM  901  C2  XYZ B 900      91.400  90.000  90.000  1.00  0.00           C  ')
+    if case.get('error_record'):
+        # a residue called ALA that shares nothing with the ALA block: repair_graph logs a non-fatal ERROR record
+        # (inconsistent-data, "Can't find isomorphism") and the atom is later reported as unmapped (WARNING)
+        out.append('HETATM  950 ZN   ALA C 950      60.000  60.000  60.000  1.00  0.00          ZN  ')
     return '\n'.join(out) + '\nEND\n'
 
 
@@ -1058,7 +1062,10 @@ def _cli_case(draw):
     unknown = draw(st.sampled_from([False, False, True]))
     collagen = draw(st.sampled_from([False, True]))
     mutate = draw(st.sampled_from([False, False, True]))
+    error_record = draw(st.sampled_from([False, False, False, True]))
     expected = {}
+    if error_record:
+        expected['unmapped-atom'] = 1
     if altloc:
         expected['pdb-alternate'] = altloc
     if unknown:
@@ -1104,7 +1111,8 @@ def _cli_case(draw):
     slots = draw(st.sampled_from([[], ['cg.pdb'], ['molecule_0.itp', 'topol.top']]))
     return {
         'n_res': draw(st.sampled_from([3, 4, 5])), 'altloc': altloc, 'unknown': unknown, 'scfix': scfix,
-        'collagen': collagen, 'mutate': mutate, 'maxwarn': groups, 'preexist': preexist, 'slots': slots,
+        'collagen': collagen, 'mutate': mutate, 'error_record': error_record, 'maxwarn': groups, 'preexist': preexist,
+        'slots': slots,
         'write_graph': draw(st.sampled_from([False, False, False, True])),
         'verbose': draw(st.sampled_from([False, False, False, False, True])),
     }
@@ -1132,6 +1140,9 @@ CLI_ANCHORS = [
     dict(_ANCHOR_BASE, name='no-maxwarn', altloc=1, maxwarn=[]),
     # a limit of zero for the only type that occurs -> shut
     dict(_ANCHOR_BASE, name='limit-zero', altloc=2, maxwarn=[[['pdb-alternate', 0]]]),
+    # a non-fatal ERROR record is left although every WARNING is waived, by name or by a generous blanket -> shut
+    dict(_ANCHOR_BASE, name='error-record-warnings-waived-by-name', altloc=0, error_record=True, maxwarn=[[['unmapped-atom', None]]]),
+    dict(_ANCHOR_BASE, name='error-record-generous-blanket', altloc=1, error_record=True, maxwarn=[[[None, 9]]]),
 ]
 
 
